@@ -95,6 +95,58 @@ def explicit(tier, seed):
         i += 1
 
 
+def window_cases(tier, seed):
+    """The deciding completion arrives while the timer thread is re-submitting a suspended branch (its blocking refresh call is
+    kept in flight); and oversized batches that were decided early while branches were still queued behind max_concurrency."""
+    rng = random.Random(seed + 3)
+    i = 0
+    ret_any = {"any": [{"event": {"kind": "ret", "path": "0"}}, {"event": {"kind": "susp", "path": "0"}}, {"event": {"kind": "exc", "path": "0"}},
+                       {"event": {"kind": "abort", "path": "0"}}]}
+    refresh = {"kind": "api", "updates": [], "op": "checkpoint"}
+    for kind in ("par", "map"):
+        for cname, cfg, decider in (("min1", {"min_ok": 1}, "ok"), ("first_successful", {"preset": "first_successful"}, "ok"), ("tol0", {"tol_n": 0}, "fail"),
+                                    ("min1-tol1", {"min_ok": 1, "tol_n": 1}, "ok")):
+            for parker in ("wait", "retry"):
+                for rep in range(1 if tier == "quick" else 4):
+                    if parker == "wait":
+                        b0 = [{"k": "wait", "s": 1}]
+                    else:
+                        b0 = [{"k": "step", "script": [{"do": "fail", "cls": "ValueError", "msg": "x"}, {"do": "ok", "val": 1, "gate": "blk:0:0"}],
+                               "retry": {"decisions": [("retry", 1), ("stop",)]}}]
+                    b0 = b0 + [{"k": "step", "script": [{"do": "ok", "val": "late", "gate": "blk:0:0"}]}]
+                    dec = {"k": "step", "script": [{"do": "ok" if decider == "ok" else "fail", "val": "d", "cls": "ValueError", "msg": "d", "gate": "dec"}],
+                           "retry": {"kind": "preset", "name": "none"}}
+                    brs = [{"body": b0}, {"body": [dec]}, {"body": [{"k": "step", "script": [{"do": "ok", "val": "b2", "gate": "blk:0:2"}]}]}]
+                    node = {"k": "par", "branches": brs, "cfg": cfg} if kind == "par" else {"k": "map", "items": [0, 1, 2], "per_item": brs, "body": [], "cfg": cfg}
+                    holds = [{"match": {"kind": "gate", "name": "dec"}, "until": {"event": refresh}},
+                             {"match": refresh, "delay_ms": rng.choice([60, 120])},
+                             {"match": {"kind": "gate", "name": "blk:0:0"}, "until": ret_any},
+                             {"match": {"kind": "gate", "name": "blk:0:2"}, "until": ret_any}]
+                    yield {"label": "decided-during-resubmission|%s|%s|%s" % (kind, cname, parker), "prog": {"body": [{"k": "try", "body": node, "catch": "*"}, {"k": "step", "val": "end"}]},
+                           "prog_seed": 17900 + i, "pattern": {"p": "plain"}, "holds": holds, "opts": {"hang_s": 3.0, "idle_s": 0.7}, "max_inv": 12}
+                    i += 1
+    L = 256 * 1024
+    for kind in ("par", "map"):
+        for n, maxc, cfg in ((6, 2, {"min_ok": 2}), (5, 1, {"min_ok": 1}), (4, 2, {"preset": "first_successful"}), (5, 2, {"tol_n": 0}), (6, 3, {"min_ok": 2, "tol_n": 1})):
+            brs = []
+            for b in range(n):
+                if cfg.get("tol_n") == 0 and b == 0:
+                    brs.append({"body": [{"k": "step", "script": [{"do": "fail", "cls": "ValueError", "msg": "m" * (L + 100)}], "retry": {"kind": "preset", "name": "none"}}]})
+                else:
+                    brs.append({"body": [{"k": "step", "val": b}], "result": {"big": L // 2 + 500}})
+            c = dict(cfg, max_conc=maxc)
+            node = {"k": "par", "branches": brs, "cfg": c} if kind == "par" else {"k": "map", "items": list(range(n)), "per_item": brs, "body": [], "cfg": c}
+            yield {"label": "oversized-decided-early-with-queued-branches|%s" % kind,
+                   "prog": {"body": [{"k": "try", "body": node, "catch": "*"}, {"k": "wait", "s": 1}, {"k": "step", "val": "mid"}, {"k": "wait", "s": 1}, {"k": "step", "val": "end"}]},
+                   "prog_seed": 17950 + i, "pattern": {"p": "plain"}, "opts": {"hang_s": 3.0}, "max_inv": 12}
+            i += 1
+
+
+def explicit_all(tier, seed):
+    yield from explicit(tier, seed)
+    yield from window_cases(tier, seed)
+
+
 def deciding(r):
     return (r.get("stats") or {}).get("c09_batches", 0) > 0
 
@@ -103,7 +155,7 @@ SPEC = Spec(
     PROP,
     props=["C09"],
     level="exploration",
-    explicit=explicit,
+    explicit=explicit_all,
     quick={"plain": 0, "enum": 0, "rand": 0, "async": 0},
     thorough={"plain": 0, "enum": 0, "rand": 0, "async": 0},
     rule="map/parallel with 0-8 items x 13 completion configurations (defaults, presets, min_successful, tolerated count / percentage and "
@@ -111,7 +163,7 @@ SPEC = Spec(
     "inside the step function} x a completion order forced by conductor gates inside the step functions (gate k is released only after "
     "the previous branch body has exited; blocked branches are released only once the call has returned), followed by a wait so the "
     "result is replayed; LINE-level yield injection on 1/5 and a pause between the field writes of the executor's branch state on 1/7 of "
-    "the scenarios. Oracle: at the instant the call returns the reference policy is decided by the branch completion records applied so "
+    "the scenarios; plus scenarios in which the deciding completion arrives while the timer thread re-submits a suspended branch (its refresh call kept in flight 60-120 ms), and oversized (>256 KB) batches decided early while branches were still queued behind max_concurrency, replayed twice. Oracle: at the instant the call returns the reference policy is decided by the branch completion records applied so "
     "far (timing is not judged for min_successful-only configs after a failure, where code and docs disagree); the call returns without "
     "the conductor having to force-release a blocked branch; peak concurrently active branch bodies <= max_concurrency; one item per "
     "input in order; items reported SUCCEEDED/FAILED have an applied completion record and carry the branch's ground-truth value/error; "
